@@ -15,7 +15,7 @@ input (`has_bound_of` belongs to `types.py`), as are the two switches `cfg.dis.*
 -/
 namespace Heph
 namespace Inst
-open Ty
+open Ty Ty.D2
 
 /-- the Python dict `variance_choices : {TypeParameter: (can_variant, can_contravariant)}` -/
 abbrev VChoices := List (Ty × (Bool × Bool))
